@@ -111,6 +111,9 @@ pub struct Config {
     pub mw_script: HashMap<String, HashMap<String, HashMap<String, String>>>,
     #[serde(default)]
     pub mw_remove: HashMap<String, HashMap<String, String>>,
+    /// mw id -> kind -> action the before_dispatch hook dispatches through its dispatcher (0 = none)
+    #[serde(default)]
+    pub mw_disp: HashMap<String, HashMap<String, i64>>,
     #[serde(default)]
     pub subs: HashMap<String, SubCfg>,
     /// action id -> kind
@@ -426,7 +429,20 @@ impl Middleware<St, Act> for SMiddleware {
         let given = self
             .env
             .cb("before_dispatch", &self.id, state.json(), action.id, json!([]));
-        self.verdict("before_dispatch", action, given)
+        let v = self.verdict("before_dispatch", action, given);
+        let a2 = self
+            .env
+            .cfg
+            .mw_disp
+            .get(&self.id)
+            .and_then(|m| m.get(&action.kind.to_string()))
+            .cloned()
+            .unwrap_or(0);
+        if a2 != 0 {
+            // the middleware uses the dispatcher it was handed (on the reducer thread)
+            let _ = _dispatcher.dispatch(self.env.cfg.act(a2));
+        }
+        v
     }
 
     fn on_error(&self, _error: StoreError) {
